@@ -224,6 +224,29 @@ def r_inplace(ck: Checker, ncls: set[str]) -> None:
         ck.holds("R-INPLACE", ("src/pyoak", "*"), None, what, evaluations=n, mutation_sites=n)
 
 
+def r_reg_callers(ck: Checker, ncls: set[str]) -> None:
+    """Registry membership of existing nodes changes only through detach / detach_self / replace called by the *user*: no other
+    library operation (traversal, visiting, transforming, matching, serialization) calls them on the nodes it is given."""
+    mods = ck.repo.nonlegacy()
+    what = "no library operation other than detach / detach_self / replace themselves removes the nodes it works on from the registry"
+    owners = {"ASTNode.detach", "ASTNode.detach_self", "ASTNode.replace"}
+    n = 0
+    for f in ck.repo.functions(mods):
+        if f.qualname in owners:
+            continue
+        for c in ast.walk(f.node):
+            if not (isinstance(c, ast.Call) and isinstance(c.func, ast.Attribute) and c.func.attr in ("detach", "detach_self", "replace")):
+                continue
+            recv = c.func.value
+            ev = node_evidence(recv, f, ncls)
+            if c.func.attr == "replace" and not ev:
+                continue  # str.replace and the like
+            n += 1
+            ck.violation("R-REG-CALLERS", f, c, what, construct=f"{f.qualname} calls {norm(c)[:60]} ({ev or 'registry operation'})")
+    if not n:
+        ck.holds("R-REG-CALLERS", ("src/pyoak", "*"), None, what)
+
+
 WITNESS_FAIL = """from dataclasses import dataclass
 from pyoak.node import ASTNode
 
@@ -322,6 +345,7 @@ def run(ck: Checker) -> None:
     # registry membership of an existing node changes only as specified for detach / replace
     from .c03 import r_reg_fresh, r_reg_ident, r_reg_own
     from .c04 import r_deser_id
+    ck.guard("R-REG-CALLERS", lambda: r_reg_callers(ck, ncls))
     ck.guard("R-REG-OWN", lambda: r_reg_own(ck))
     ck.guard("R-REG-IDENT", lambda: r_reg_ident(ck))
     ck.guard("R-REG-FRESH", lambda: r_reg_fresh(ck))
